@@ -52,3 +52,87 @@ Theorem C20_cached_digest : forall i j a b,
   hash_events a = hash_events b <-> hash_events (SCached i a) = hash_events (SCached j b).
 Proof. intros i j a b. exact (hash_cached_congruence i j a b). Qed.
 Print Assumptions C20_cached_digest.
+
+(* --- map() and the chunk stream ------------------------------------------------------------- *)
+From RS Require Import Stream.Tree Proofs.ReassAll Proofs.EqObsTree
+  Proofs.HashObsLeaf Proofs.HashObsTree Proofs.HashObsInner.
+
+(* what the hash deliberately ignores is unobservable: equal normal forms give the same chunk
+   stream (events and generated position) and the same map(), for trees without combined leaves *)
+Theorem C20_ignored_is_unobservable : forall a b,
+  noinner a = true -> noinner b = true ->
+  all_leaves_valid a = true -> all_leaves_valid b = true ->
+  ids_distinct a -> ids_distinct b -> norm a = norm b ->
+  forall o c,
+    fst (fst (stream [] a o)) = fst (fst (stream [] b o)) /\
+    snd (fst (stream [] a o)) = snd (fst (stream [] b o)) /\
+    fst (map_of [] a c) = fst (map_of [] b c).
+Proof. exact N2_norm_cold_answers. Qed.
+Print Assumptions C20_ignored_is_unobservable.
+
+(* the property with map(): any difference in map(), source() or buffer() is a difference of the
+   hasher streams (trees without combined leaves) *)
+Theorem C20_separates_maps : forall a b,
+  delimited a = true -> delimited b = true -> noinner a = true -> noinner b = true ->
+  all_leaves_valid a = true -> all_leaves_valid b = true -> ids_distinct a -> ids_distinct b ->
+  (exists c, fst (map_of [] a c) <> fst (map_of [] b c)) \/ source a <> source b \/ buffer a <> buffer b ->
+  hash_events a <> hash_events b.
+Proof. exact N3_observable_difference_hash. Qed.
+Print Assumptions C20_separates_maps.
+
+Theorem C20_separates_streams : forall a b,
+  delimited a = true -> delimited b = true -> noinner a = true -> noinner b = true ->
+  all_leaves_valid a = true -> all_leaves_valid b = true -> ids_distinct a -> ids_distinct b ->
+  (exists o, fst (stream [] a o) <> fst (stream [] b o)) -> hash_events a <> hash_events b.
+Proof. exact N3_stream_difference_hash. Qed.
+Print Assumptions C20_separates_streams.
+
+(* with combined leaves (SourceMapSource with an inner map) the name of the leaf enters map():
+   the property excludes exactly that name ("deliberately not hashed").  Outside the exclusion -
+   the names of the combined leaves agree - the statement holds on all delimited trees *)
+Theorem C20_separates_maps_combined : forall a b,
+  all_leaves_valid a = true -> all_leaves_valid b = true -> ids_distinct a -> ids_distinct b ->
+  delimited a = true -> delimited b = true ->
+  inner_names a = inner_names b ->
+  (exists c, fst (map_of [] a c) <> fst (map_of [] b c)) \/
+  (exists o, fst (stream [] a o) <> fst (stream [] b o)) \/
+  source a <> source b \/ buffer a <> buffer b ->
+  hash_events a <> hash_events b.
+Proof. exact N4_hash_and_names_partial. Qed.
+Print Assumptions C20_separates_maps_combined.
+
+(* ... and the exclusion is needed: the name of a combined leaf IS observable through map() while
+   the hasher stream ignores it (no defect: the property text excludes the name) *)
+Theorem C20_excluded_name_is_observable :
+  hash_events n4_a = hash_events n4_b /\ norm n4_a = norm n4_b /\
+  source n4_a = source n4_b /\ buffer n4_a = buffer n4_b /\
+  (forall c, fst (map_of [] n4_a c) <> fst (map_of [] n4_b c)) /\
+  src_eqb n4_a n4_b = false.
+Proof.
+  destruct N4_name_observable as (_&_&_&_&_&_&_&_&_&H1&H2&H3&H4&H5&_&H6).
+  repeat split; assumption.
+Qed.
+Print Assumptions C20_excluded_name_is_observable.
+
+(* a collision of the hasher streams between observably different trees is a name of a
+   combined leaf, nothing else *)
+Theorem C20_collision_is_a_name : forall a b,
+  all_leaves_valid a = true -> all_leaves_valid b = true -> ids_distinct a -> ids_distinct b ->
+  delimited a = true -> delimited b = true ->
+  hash_events a = hash_events b ->
+  (exists c, fst (map_of [] a c) <> fst (map_of [] b c)) \/
+  (exists o, fst (stream [] a o) <> fst (stream [] b o)) ->
+  inner_names a <> inner_names b.
+Proof. exact N4_collision_is_a_name. Qed.
+Print Assumptions C20_collision_is_a_name.
+
+(* "and compare unequal": on ALL trees, no class and no validity, any observable difference
+   makes == false (== does compare the name) *)
+Theorem C20_observable_difference_unequal : forall a b,
+  ids_distinct a -> ids_distinct b ->
+  (exists c, fst (map_of [] a c) <> fst (map_of [] b c)) \/
+  (exists o, fst (stream [] a o) <> fst (stream [] b o)) \/
+  source a <> source b \/ buffer a <> buffer b ->
+  src_eqb a b = false.
+Proof. exact N4_observable_difference_unequal. Qed.
+Print Assumptions C20_observable_difference_unequal.
